@@ -78,6 +78,11 @@ def build_am(modes, mix, asyncs_all):
         pass
     am["methods"] = methods
     am["async"] = [[p, n] for p, ns in methods.items() for n in ns] if asyncs_all else []
+    if "on_jump" in methods["machine"] and not asyncs_all:
+        # the machine's event-specific `on` action of `jump` is given with the decorator spelling
+        #   @b.to(c)
+        #   def jump(self): ...
+        am["decorator_events"] = {"jump": "on_jump"}
     if asyncs_all:
         # every third coroutine callback of the machine sits behind a plain `def` wrapper that returns the coroutine
         # (an `async def` under an ordinary decorator): not a coroutine function, still awaited by the async engine
